@@ -6,7 +6,7 @@ Local Open Scope N_scope.
 Definition key_sk (k : sk) : list N :=
   [o k; pc k; b2n (conn k); b2n (innsp k); b2n (room k); b2n (incs k); apc k; nd k; ndg k; b2n (ever k)].
 Definition key2 (s : ctl2) : list N :=
-  [e_once2 s; e_pc2 s; b2n (store2 s); c_once2 s; c_pc2 s; b2n (closed2 s); b2n (snapA s); b2n (snapB s); cur s; b2n (cc2 s)]
+  [e_once2 s; e_pc2 s; b2n (store2 s); c_once2 s; c_pc2 s; b2n (closed2 s); b2n (snapA s); b2n (snapB s); cur s; b2n (cc2 s); bynsp s]
   ++ key_sk (skA s) ++ key_sk (skB s).
 Definition hkey2 (s : ctl2) : list N := let k := key2 s in hash k :: k.
 
@@ -21,29 +21,29 @@ Ltac peel H :=
 
 Lemma key2_inj : forall x y, key2 x = key2 y -> x = y.
 Proof.
-  intros [? ? ? ? ? ? ? ? ? ? [? ? ? ? ? ? ? ? ? ?] [? ? ? ? ? ? ? ? ? ?]]
-         [? ? ? ? ? ? ? ? ? ? [? ? ? ? ? ? ? ? ? ?] [? ? ? ? ? ? ? ? ? ?]] H.
+  intros [? ? ? ? ? ? ? ? ? ? ? [? ? ? ? ? ? ? ? ? ?] [? ? ? ? ? ? ? ? ? ?]]
+         [? ? ? ? ? ? ? ? ? ? ? [? ? ? ? ? ? ? ? ? ?] [? ? ? ? ? ? ? ? ? ?]] H.
   unfold key2, key_sk in H. simpl in H. peel H. reflexivity.
 Qed.
 Lemma hkey2_inj : forall x y, hkey2 x = hkey2 y -> x = y.
 Proof. intros x y H. apply key2_inj. apply (f_equal (@tl N)) in H. exact H. Qed.
 
-Definition reach_tree2 (ff : bool) : tree ctl2 (list N) :=
+Definition reach_tree2 (ff : cfg2) : tree ctl2 (list N) :=
   bfs (cstep2 ff) all_acts2 hkey2 lcmp 400 [cinit2] (tins hkey2 lcmp cinit2 Leaf).
 
 (** per socket: at most once; never without connecting; exactly once at quiescence once its end
     began; nothing left at quiescence after the connection's / the namespace's end *)
 Definition end_begun2 (s : ctl2) (k : sk) : bool := negb (o k =? Fresh) || negb (e_once2 s =? Fresh).
-Definition p_sock (ff : bool) (s : ctl2) (k : sk) : bool :=
+Definition p_sock (ff : cfg2) (s : ctl2) (k : sk) : bool :=
   (nd k <=? 1) && (ndg k <=? 1)
   && implb' (negb (ever k)) ((nd k =? 0) && (ndg k =? 0))
   && implb' (nd k =? 1) ((ndg k =? 1) && (o k =? Done) && negb (conn k))
   && implb' (quiescent2 ff s && ever k && end_begun2 s k) ((nd k =? 1) && (ndg k =? 1))
   && implb' (quiescent2 ff s && (e_once2 s =? Done)) (sk_clean k && negb (store2 s))
   && implb' (quiescent2 ff s && (o k =? Done)) (sk_clean k).
-Definition p_all2 (ff : bool) (s : ctl2) : bool := p_sock ff s (skA s) && p_sock ff s (skB s).
+Definition p_all2 (ff : cfg2) (s : ctl2) : bool := p_sock ff s (skA s) && p_sock ff s (skB s).
 
-Definition reach_ok_of2 (ff : bool) (t : tree ctl2 (list N)) : bool :=
+Definition reach_ok_of2 (ff : cfg2) (t : tree ctl2 (list N)) : bool :=
   closedb (cstep2 ff) all_acts2 hkey2 lcmp leqb t && tmem hkey2 lcmp cinit2 t && forallb (p_all2 ff) (telems t).
 
 Lemma reach_ok_of2_split ff t :
@@ -54,7 +54,10 @@ Proof.
   unfold reach_ok_of2. intros H. apply andb_true_iff in H as [H HP]. apply andb_true_iff in H as [HC H0]. auto.
 Qed.
 
-Lemma reach_ok_code2 : reach_ok_of2 true (reach_tree2 true) = true.
+(** two namespaces, and two sockets of one namespace (overlapping duplicate CONNECT) *)
+Lemma reach_ok_code2 : reach_ok_of2 (code2 false) (reach_tree2 (code2 false)) = true.
+Proof. vm_compute. reflexivity. Qed.
+Lemma reach_ok_code2_same : reach_ok_of2 (code2 true) (reach_tree2 (code2 true)) = true.
 Proof. vm_compute. reflexivity. Qed.
 
 Global Opaque reach_tree2.
